@@ -432,7 +432,13 @@ class Plane:
                             f"'{self.ptype}'")
 
         pixelscale = _mul_pixelscale(self.pixelscale, wavefront.pixelscale)
-        shape = wavefront.shape if self.shape == () else self.shape
+        if self.shape != ():
+            shape = self.shape
+        elif len(wavefront.shape) == 0 and self.opd.ndim == 2:
+            # no mask to define the shape of the result: the OPD array does
+            shape = self.opd.shape
+        else:
+            shape = wavefront.shape
         data = wavefront.data
         ptype = _mul_result_ptype(wavefront.ptype, self.ptype)
 
